@@ -143,3 +143,183 @@ fn c14_region_tracker_step() {
     }
     core::mem::forget(t);
 }
+
+// ---- C14: Allocators::resize_to (regions dropped / added / resized when the file shrinks or grows) --
+
+use crate::tree_store::page_store::buddy_allocator::verif_kani as bh;
+use crate::tree_store::page_store::layout::RegionLayout;
+
+fn tbit(t: &RegionTracker, o: usize, r: u32) -> bool {
+    tracker_bit(t, o, r)
+}
+
+/// optimistic-tracker invariant T for region r with free set `free` and length n
+fn t_ok(t: &RegionTracker, r: u32, free: u128, n: u32) -> bool {
+    let mut ok = true;
+    let mut o = 0u8;
+    while o <= 4 {
+        let mut has = false;
+        let mut k = o;
+        while k <= 4 {
+            if bh::has_aligned_run(free, n, k) {
+                has = true;
+            }
+            k += 1;
+        }
+        if has && tbit(t, o as usize, r) {
+            ok = false;
+        }
+        o += 1;
+    }
+    ok
+}
+
+fn any_tracker3() -> RegionTracker {
+    // 5 orders x 3 regions, every bit arbitrary
+    let w: [u64; 5] = kani::any();
+    RegionTracker::verif_raw(alloc::vec![
+        bmh::mk_padded(3, TCAP, &[w[0], u64::MAX, u64::MAX]),
+        bmh::mk_padded(3, TCAP, &[w[1], u64::MAX, u64::MAX]),
+        bmh::mk_padded(3, TCAP, &[w[2], u64::MAX, u64::MAX]),
+        bmh::mk_padded(3, TCAP, &[w[3], u64::MAX, u64::MAX]),
+        bmh::mk_padded(3, TCAP, &[w[4], u64::MAX, u64::MAX]),
+    ])
+}
+
+fn all_free16() -> BuddyAllocator {
+    let mut w: bh::Words = [[u64::MAX; 2]; bh::MAXO];
+    w[4][0] = !1u64;
+    bh::mk_alloc(16, 16, &w)
+}
+
+fn tiny_free() -> BuddyAllocator {
+    let mut w: bh::Words = [[u64::MAX; 2]; bh::MAXO];
+    w[0][0] = !1u64;
+    bh::mk_alloc(1, 1, &w)
+}
+
+fn full_layout(full: u32, trailing: Option<u32>) -> DatabaseLayout {
+    DatabaseLayout::new(full, RegionLayout::new(16, 0, 512), trailing.map(|p| RegionLayout::new(p, 0, 512)))
+}
+
+/// shrink from three full regions to `keep_full` full regions plus an optional trailing region of
+/// `trailing` pages: every dropped region is marked full at EVERY order in the tracker (so
+/// find_free can never hand out a region that no longer exists), the surviving regions'
+/// allocators and tracker bits are untouched, and the new last region is cut to its new length
+fn resize_to_shrink_case(keep_full: u32, trailing: Option<u32>, symbolic_region0: bool) {
+    let a0 = if symbolic_region0 {
+        let w0 = bh::any_words();
+        bh::mk_alloc(16, 16, &w0)
+    } else {
+        all_free16()
+    };
+    let pre0 = bh::r_inv(&a0, 16, 16);
+    kani::assume(pre0.is_some());
+    let pre0 = pre0.unwrap();
+    let tracker = any_tracker3();
+    let before: [u64; 5] = [leafw(&tracker, 0, 0), leafw(&tracker, 1, 0), leafw(&tracker, 2, 0), leafw(&tracker, 3, 0), leafw(&tracker, 4, 0)];
+    // the regions that get dropped: full-size when region 0 is symbolic (they may be cut), and
+    // one-page allocators otherwise (their drop glue is what CBMC spends its time on)
+    let mut al = Allocators {
+        region_tracker: tracker,
+        region_allocators: if symbolic_region0 {
+            alloc::vec![a0, all_free16(), all_free16()]
+        } else {
+            alloc::vec![a0, tiny_free(), tiny_free()]
+        },
+    };
+    let new_layout = full_layout(keep_full, trailing);
+    let new_regions = new_layout.num_regions();
+    al.resize_to(new_layout);
+    assert!(al.region_allocators.len() == new_regions as usize, "one allocator per remaining region");
+    let mut r = 0u32;
+    while r < 3 {
+        let mut o = 0usize;
+        while o < 5 {
+            if r >= new_regions {
+                assert!(tbit(&al.region_tracker, o, r), "a dropped region is marked full at every order");
+            } else {
+                assert!(tbit(&al.region_tracker, o, r) == (before[o] & (1u64 << r) != 0), "surviving regions keep their tracker bits");
+            }
+            o += 1;
+        }
+        r += 1;
+    }
+    assert!(bh::r_inv(&al.region_allocators[0], 16, 16) == Some(pre0), "region 0 is untouched");
+    if let Some(p) = trailing {
+        let last = &al.region_allocators[new_regions as usize - 1];
+        let all: u128 = (1u128 << p) - 1;
+        assert!(bh::r_inv(last, p, 16) == Some(all), "the new last region is cut to its new length, all of it free");
+    }
+    kani::cover!(before[2] & 0b110 == 0, "the dropped regions were advertised as free before");
+    core::mem::forget(al);
+}
+
+/// grow from one region of 11 pages to one full region plus a new trailing region of 7 pages:
+/// old pages keep their state, the tracker stays optimistic (T) for both regions
+fn resize_to_grow_case() {
+    let w0 = bh::any_words();
+    let a0 = bh::mk_alloc(11, 16, &w0);
+    let pre0 = bh::r_inv(&a0, 11, 16);
+    kani::assume(pre0.is_some());
+    let pre0 = pre0.unwrap();
+    let tracker = any_tracker3();
+    kani::assume(t_ok(&tracker, 0, pre0, 11));
+    let mut al = Allocators {
+        region_tracker: tracker,
+        region_allocators: alloc::vec![a0],
+    };
+    al.resize_to(full_layout(1, Some(7)));
+    assert!(al.region_allocators.len() == 2);
+    let p0 = bh::r_inv(&al.region_allocators[0], 16, 16);
+    assert!(p0 == Some(pre0 | (0x1Fu128 << 11)), "old pages keep their state, pages 11..16 are free");
+    let p1 = bh::r_inv(&al.region_allocators[1], 7, 16);
+    assert!(p1 == Some(0x7F), "the new region is entirely free");
+    assert!(t_ok(&al.region_tracker, 0, p0.unwrap(), 16), "the grown region is not reported full at any order it can serve");
+    assert!(t_ok(&al.region_tracker, 1, 0x7F, 7), "the new region is not reported full at any order it can serve");
+    kani::cover!(pre0 == 0, "grown from a full region");
+    core::mem::forget(al);
+}
+
+// @harness props=C14 tier=quick timeout=1800 mem=16 replay=native
+// @desc Allocators::resize_to when the file shrinks from three entirely free regions to one, with ANY tracker state: every dropped region is marked full at every order of the region tracker (find_free can never return a region that no longer exists), the surviving region keeps its allocator state and tracker bits, and the allocator list matches the new layout
+// @functions Allocators::resize_to, RegionTracker::mark_full, BuddyAllocator::len, DatabaseLayout::{num_regions,trailing_region_layout,full_region_layout}
+// @bound three entirely free regions (16, 1 and 1 pages) -> 1 region; all tracker bits (5 orders x 3 regions, real 4-level shape) arbitrary
+#[kani::proof]
+#[kani::unwind(20)]
+fn c14_resize_to_drop_regions_tracker() {
+    resize_to_shrink_case(1, None, false);
+}
+
+// @harness props=C14 tier=thorough timeout=3600 mem=32 replay=native attempt=1
+// @desc (attempted: not closed in 1500 s) Allocators::resize_to when the file shrinks from three full regions (region 0 in ANY valid allocator state, ANY tracker state): every dropped region is marked full at every order of the region tracker - find_free can never return a region that no longer exists - surviving regions keep allocator state and tracker bits, the allocator list matches the new layout, and a new trailing region is cut to its length
+// @functions Allocators::resize_to, RegionTracker::mark_full, BuddyAllocator::{resize,len}, DatabaseLayout::{num_regions,trailing_region_layout,full_region_layout}
+// @bound three 16-page regions (capacity 16) -> 1 region, or -> 1 full + trailing 5 pages; region 0 allocator words and all tracker bits (5 orders x 3 regions, real 4-level shape) arbitrary; regions 1, 2 entirely free
+// @assumes region 0 satisfies R
+#[kani::proof]
+#[kani::unwind(20)]
+fn c14_resize_to_drop_two_regions() {
+    resize_to_shrink_case(1, None, true);
+}
+
+// @harness props=C14 tier=thorough timeout=3600 mem=32 replay=native attempt=1
+// @desc (attempted: not closed in 1500 s) as c14_resize_to_drop_two_regions, shrinking to one full region plus a trailing region of 5 pages (one region dropped, the next cut from 16 to 5 pages)
+// @functions Allocators::resize_to, RegionTracker::mark_full, BuddyAllocator::{resize,record_alloc_inner}
+// @bound three 16-page regions -> 1 full + trailing 5 pages
+// @assumes region 0 satisfies R
+#[kani::proof]
+#[kani::unwind(20)]
+fn c14_resize_to_drop_one_cut_one() {
+    resize_to_shrink_case(1, Some(5), true);
+}
+
+// @harness props=C14 tier=thorough timeout=3600 mem=32 replay=native attempt=1
+// @desc (attempted: not closed in 2400 s) Allocators::resize_to when the file grows from one region of 11 pages (ANY valid allocator state, ANY tracker state consistent with T) to a full region plus a new trailing region of 7 pages: old pages keep their state, the added pages and the new region are free, and the tracker reports neither region full at any order it can serve
+// @functions Allocators::resize_to, BuddyAllocator::{new,resize,highest_free_order}, RegionTracker::{mark_free,resize,len}
+// @bound 11 -> 16 pages + new region of 7 pages, capacity 16; allocator words and tracker bits arbitrary
+// @assumes region 0 satisfies R and the tracker satisfies T for it
+#[kani::proof]
+#[kani::unwind(20)]
+fn c14_resize_to_grow() {
+    resize_to_grow_case();
+}
